@@ -251,7 +251,26 @@ class Interp:
         for name, sub in fn.nested.items():
             if name not in st.called_nested:
                 st.call_nested(sub, [], {}, sub.node, dict(st.last_env), record=False)
-        return st.res
+        return self.dedupe(st.res)
+
+    @staticmethod
+    def dedupe(res):
+        ys, order = {}, []
+        for node, v in res.yields:
+            if id(node) not in ys:
+                order.append(node)
+                ys[id(node)] = v
+            else:
+                ys[id(node)] = join(ys[id(node)], v)
+        res.yields = [(n, ys[id(n)]) for n in order]
+        seen, evs = set(), []
+        for e in res.events:
+            k = (e.kind, id(e.node), e.detail, e.target.key(), e.chain)
+            if k not in seen:
+                seen.add(k)
+                evs.append(e)
+        res.events = evs
+        return res
 
 
 def default_param_kinds(fn, p):
